@@ -1,6 +1,7 @@
 package main
 
 import (
+	"sync/atomic"
 	"time"
 	"runtime"
 	"context"
@@ -169,24 +170,36 @@ var ctFrontEnds = []ctFrontEnd{
 	{"zapgrpc", func(l zapcore.Level) bool {
 		return l == zapcore.DebugLevel || l == zapcore.InfoLevel || l == zapcore.WarnLevel || l == zapcore.ErrorLevel || l == zapcore.FatalLevel
 	}, func(lg *zap.Logger, w *ctWorld, l zapcore.Level) {
+		// every spelling of a level's methods, on adapters built with and without WithDebug (which only moves the
+		// Print family)
+		v := int(atomic.AddInt64(&ctFEVariant, 1))
+		g := zapgrpc.NewLogger(lg)
+		gd := zapgrpc.NewLogger(lg, zapgrpc.WithDebug())
+		if v%2 == 1 && l != zapcore.DebugLevel {
+			g = gd
+		}
 		switch l {
 		case zapcore.DebugLevel:
-			zapgrpc.NewLogger(lg, zapgrpc.WithDebug()).Println("m")
+			[]func(){func() { gd.Println("m") }, func() { gd.Print("m") }, func() { gd.Printf("m") }}[v%3]()
 		case zapcore.InfoLevel:
-			zapgrpc.NewLogger(lg).Infoln("m")
+			[]func(){func() { g.Infoln("m") }, func() { g.Info("m") }, func() { g.Infof("m") }, func() { zapgrpc.NewLogger(lg).Println("m") }}[v%4]()
 		case zapcore.WarnLevel:
-			zapgrpc.NewLogger(lg).Warningf("m")
+			[]func(){func() { g.Warningf("m") }, func() { g.Warning("m") }, func() { g.Warningln("m") }}[v%3]()
 		case zapcore.ErrorLevel:
-			zapgrpc.NewLogger(lg).Errorln("m")
+			[]func(){func() { g.Errorln("m") }, func() { g.Error("m") }, func() { g.Errorf("m") }}[v%3]()
 		case zapcore.FatalLevel:
-			zapgrpc.NewLogger(lg).Fatalln("m")
+			[]func(){func() { g.Fatalln("m") }, func() { g.Fatal("m") }, func() { g.Fatalf("m") }}[v%3]()
 		}
 	}},
 	{"slog", func(l zapcore.Level) bool { return l >= zapcore.DebugLevel && l <= zapcore.ErrorLevel }, func(lg *zap.Logger, w *ctWorld, l zapcore.Level) {
 		sl := slog.New(zapslog.NewHandler(lg.Core()))
-		sl.Log(context.Background(), []slog.Level{slog.LevelDebug, slog.LevelInfo, slog.LevelWarn, slog.LevelError}[int(l)+1], "m", "p", 1)
+		// every slog level of the class: slog levels are 4 apart, what lies between two names belongs to the lower one
+		v := int(atomic.AddInt64(&ctFEVariant, 1))
+		sl.Log(context.Background(), []slog.Level{slog.LevelDebug, slog.LevelInfo, slog.LevelWarn, slog.LevelError}[int(l)+1]+slog.Level(v%4), "m", "p", 1)
 	}},
 }
+
+var ctFEVariant int64
 
 func replayC05(c *Ctx, b ctBeh, leafKind string) (finds []Finding) {
 	add := func(key, f string, a ...interface{}) {
